@@ -195,6 +195,7 @@ pub fn decode_history(data: &[u8]) -> History {
             15 => Op::ScanDigits(a % 41),
             16 => Op::ScanNextNewline(a % 41),
             17 => Op::AdvanceTooFar(a as u64),
+            18 if a % 7 == 0 => Op::SetChunkAbsurd(a % 4),
             18 => Op::AdvanceHuge(a % 300),
             _ => Op::AdvanceWithBufTooFar(a as u64),
         });
